@@ -4,7 +4,7 @@ import dsgcase, graphdrive
 from props import C02 as _c02
 
 ID = 'C06'
-RULE = ('G-sel graphs with 1-3 incompatibility constraints placed on start/option/derived/shared nodes; every admissible '
+RULE = ('G-sel graphs with 1-3 incompatibility constraints placed on start/option/derived/shared nodes, plus G-cross / G-fanin / G-cycles / layered graphs (options of different choices deriving each other) with 1-2 random incompatibility constraints; every admissible '
         'assignment of the model must stay reachable in every order tried (option offered at each step, end feasible, '
         'node set = closure); every path offered by the implementation that ends final+feasible must be admissible and '
         'contain no incompatible pair; an initially infeasible graph must have no admissible assignment; non-trivial = '
@@ -26,6 +26,24 @@ def batches(tier, seed):
         c['_i'] = i
         cases.append(c)
     yield 'g-sel-incompat', cases
+    # options of different choices deriving each other (diamonds, fan-in, nested cycles), with 1-2 incompatibility
+    # constraints between nodes that do not make an option self-conflicting
+    cro = []
+    for i in range(n // 4):
+        want_clean = rng.random() < 0.8
+        for _try in range(80):
+            c = [dsgcase.gen_cross, dsgcase.gen_fanin, dsgcase.gen_cycles, dsgcase.gen_layered][i % 4](rng)
+            inc = list(c.get('incompat', []))
+            for _ in range(rng.choice([1, 1, 2])):
+                a, b = rng.sample(range(1, c['n']), 2)
+                if [a, b] not in inc and [b, a] not in inc:
+                    inc.append([a, b])
+            c['incompat'] = inc
+            if not want_clean or not dsgcase.guards(c):
+                break
+        c['_i'] = i
+        cro.append(c)
+    yield 'g-cross-incompat', cro
 
 
 def run_case(case):
